@@ -10,6 +10,7 @@
 //	GENCALL(T, f, args…)       calling a generator: an iterator value in both worlds
 //	ITER(T)                    the iterator type           co: co.Iter[T]     ref: vm.PullerOf[T]
 //	YIELDT(T, e)               a yield with an explicit type argument   co: co.Yield[T](e)   ref: y.Yield(e)
+//	YIELDFROMT(T, it)          a delegation with an explicit type argument   co: co.YieldFrom[T](it)
 //	RETURNX(e)                 return with an operand      co: return e       ref: { _ = e; return }
 //	ITERFIELD()                name of an embedded field of that type   co: Iter   ref: PullerOf
 //	RANGEITER(v, tok, e) {     consumer loop               co: for v tok range e {
@@ -129,7 +130,7 @@ func (x *expander) q(name string) string { // qualified co identifier
 	return x.co + "." + name
 }
 
-var macros = []string{"GENCALL", "YIELDFROM", "YIELDT", "YIELD", "RANGEITER", "RETURNX", "ITERFIELD", "ITER", "GENLIT", "GENM", "GEN"}
+var macros = []string{"GENCALL", "YIELDFROMT", "YIELDFROM", "YIELDT", "YIELD", "RANGEITER", "RETURNX", "ITERFIELD", "ITER", "GENLIT", "GENM", "GEN"}
 
 // expand rewrites every macro occurrence, innermost arguments first
 func (x *expander) expand(s string) string {
@@ -193,6 +194,12 @@ func (x *expander) macro(m string, args []string, after string) (string, int) {
 			return "y.Yield(" + args[1] + ")", 0
 		}
 		return x.q("Yield") + "[" + args[0] + "](" + args[1] + ")", 0
+	case "YIELDFROMT":
+		// a delegation with an explicit type argument: YIELDFROMT(T, it)
+		if x.ref {
+			return "vm.YieldFromRef(y, " + args[1] + ")", 0
+		}
+		return x.q("YieldFrom") + "[" + args[0] + "](" + args[1] + ")", 0
 	case "YIELDFROM":
 		if x.ref {
 			return "vm.YieldFromRef(y, " + args[0] + ")", 0
